@@ -4,7 +4,14 @@
    exact rational scaling maps; there is NO theorem about: trigonometry (geo.Haversin,
    RectFromPointDistance — in particular the design's [pole_rect] is not stated because the
    rectangle of a circle is not modelled), the float64 rounding of scaleLon/scaleLat/unscale, the
-   float polygon ray casting, the s2 tokeniser.  Those are margin-tested by the C18 harness only.
+   float evaluation of the polygon ray casting, the s2 tokeniser.  Those are margin-tested by the
+   C18 harness only.  Polygons: the planar crossing-parity definition (Geo/Polygon.v) IS the oracle
+   of the polygon cases (evaluated exactly in Coq on every engine); proved of it below: the polygon
+   lies inside its bounding rectangle (so the plain candidate stage loses nothing), it is the
+   half-open box on axis-parallel rectangles, it does not depend on edge direction or on the scale
+   of the integer domain, and a passing case means clearly-inside points were returned and
+   clearly-outside ones were not.  NOT proved: that parity is stable between the indexed and the
+   decoded point away from the boundary (ProofsPoly.poly_stable_statement; both are evaluated).
 
    [filter_any_value] at full strength ("the filter accepts a document iff SOME value passes") is
    FALSE of the faithful model of the filters in /repo when their doc-value visitor starts with
@@ -13,7 +20,7 @@
    (Extracted.XGeo.*_filter_early_return, Extracted/Obligations_C18.v). *)
 From Coq Require Import ZArith List Bool.
 From Verif Require Import Common.Bytes Numeric.Model Geo.Model Geo.ProofsBits Geo.Proofs Geo.ProofsSort
-  Geo.Corr Geo.ProofsWalk.
+  Geo.Corr Geo.ProofsWalk Geo.Polygon Geo.ProofsPoly Geo.ProofsPolyQ Geo.ProofsPolyCorr.
 Import ListNotations.
 Local Open Scope Z_scope.
 
@@ -183,3 +190,73 @@ Theorem C18_distance_sort_monotone : forall a b ta tb,
   bcompare ta tb = f_compare a b.
 Proof. exact distance_sort_monotone. Qed.
 Print Assumptions C18_distance_sort_monotone.
+
+(* ---- polygons: planar crossing parity (the oracle of the polygon cases) ---- *)
+
+(* the polygon lies inside BoundingRectangleForPolygon: the plain index's candidate stage (box
+   searcher on that rectangle, complete by C18_box_query_complete) loses no point of the polygon *)
+Theorem C18_polygon_in_bounding_rect : forall poly bb px py,
+  bounding_rect poly = Some bb -> pip poly px py = true ->
+  rminx bb <= px < rmaxx bb /\ rminy bb <= py < rmaxy bb.
+Proof. exact pip_in_bounding_rect. Qed.
+Print Assumptions C18_polygon_in_bounding_rect.
+
+Theorem C18_polygon_in_bounding_rect_contains : forall poly bb px py,
+  bounding_rect poly = Some bb -> pip poly px py = true -> rect_contains px py bb = true.
+Proof. exact pip_rect_contains. Qed.
+Print Assumptions C18_polygon_in_bounding_rect_contains.
+
+(* a closed ring is straddled an even number of times by every latitude *)
+Theorem C18_polygon_even_straddles : forall py poly,
+  fold_left (fun a e => xorb a (straddles py e)) (edges poly) false = false.
+Proof. exact straddles_even. Qed.
+Print Assumptions C18_polygon_even_straddles.
+
+(* on axis-parallel rectangles, either orientation, the polygon query denotes the half-open box *)
+Theorem C18_polygon_rectangle_is_box : forall x0 y0 x1 y1 px py, x0 < x1 -> y0 < y1 ->
+  pip [(x0, y0); (x1, y0); (x1, y1); (x0, y1)] px py =
+  (x0 <=? px) && (px <? x1) && (y0 <=? py) && (py <? y1).
+Proof. exact pip_rectangle. Qed.
+Print Assumptions C18_polygon_rectangle_is_box.
+
+Theorem C18_polygon_rectangle_is_box_cw : forall x0 y0 x1 y1 px py, x0 < x1 -> y0 < y1 ->
+  pip [(x0, y1); (x1, y1); (x1, y0); (x0, y0)] px py =
+  (x0 <=? px) && (px <? x1) && (y0 <=? py) && (py <? y1).
+Proof. exact pip_rectangle_cw. Qed.
+Print Assumptions C18_polygon_rectangle_is_box_cw.
+
+(* the integer crossing test is the comparison of rayIntersectsSegment read over the rationals *)
+Theorem C18_polygon_ray_is_go_formula : forall px py ax ay bx by_,
+  ray_crosses px py ((ax, ay), (bx, by_)) = true <->
+  ((py <? ay) <> (py <? by_)) /\ go_crossing_Q px py ax ay bx by_.
+Proof. exact ray_crosses_spec. Qed.
+Print Assumptions C18_polygon_ray_is_go_formula.
+
+Theorem C18_polygon_edge_symmetric : forall px py a b, ray_crosses px py (a, b) = ray_crosses px py (b, a).
+Proof. exact ray_crosses_sym. Qed.
+Print Assumptions C18_polygon_edge_symmetric.
+
+(* the verdict does not depend on the scale k chosen for the integer domain S_k *)
+Theorem C18_polygon_scale_invariant : forall c poly px py, 0 < c ->
+  pip (map (scale_v c) poly) (c * px) (c * py) = pip poly px py.
+Proof. exact pip_scale. Qed.
+Print Assumptions C18_polygon_scale_invariant.
+
+Theorem C18_polygon_margin_exclusive : forall m poly px py,
+  clearly_in_poly m poly px py = true -> clearly_out_poly m poly px py = false.
+Proof. exact clearly_in_out_exclusive. Qed.
+Print Assumptions C18_polygon_margin_exclusive.
+
+Theorem C18_polygon_margin_monotone : forall m m' poly px py, 0 <= m <= m' ->
+  far_from_boundary m' poly px py = true -> far_from_boundary m poly px py = true.
+Proof. exact far_from_boundary_mono. Qed.
+Print Assumptions C18_polygon_margin_monotone.
+
+(* what a passing polygon case establishes, on every engine (plain, s2 plugin, upsidedown) *)
+Theorem C18_polygon_case_sound : forall e poly docs hits v,
+  check_poly e poly docs hits = true -> poly_view_of poly docs = Some v ->
+  forall d hit, In (d, hit) (combine (pv_docs v) hits) ->
+    ((exists p, In p d /\ clearly_in_poly (poly_margin_S (pv_k v)) (pv_poly v) (s_lon p) (s_lat p) = true) -> hit = true) /\
+    ((forall p, In p d -> clearly_out_poly (poly_margin_S (pv_k v)) (pv_poly v) (s_lon p) (s_lat p) = true) -> hit = false).
+Proof. exact check_poly_sound. Qed.
+Print Assumptions C18_polygon_case_sound.
